@@ -10,6 +10,7 @@ import time
 import traceback
 
 from . import extract
+from . import inline
 from .facts import Program, FactsError
 
 VERIF = extract.VERIF
@@ -127,7 +128,18 @@ def run_property(prop, tier, seed, configs=None):
             infra.append(Instance("%s.infrastructure" % prop, "%s.infrastructure:%s:extract" % (prop, cfg), "",
                                   "violation", "fact extraction failed: %s" % str(e)[-3000:]))
             continue
-        ctx = Ctx(prop, P, tier, cfg)
+        # structural rules see the program with helper functions inlined (sa/inline.py); the obligation engine keys its sites by
+        # where the code lives and works on the original bodies (ctx.P_view is the inlined view for its side conditions)
+        try:
+            Pv = inline.inlined_view(P)
+        except Exception as e:
+            infra.append(Instance("%s.infrastructure" % prop, "%s.infrastructure:%s:inline" % (prop, cfg), "",
+                                  "violation", "inlining failed: %s\n%s" % (e, traceback.format_exc()[-2000:])))
+            continue
+        raw = getattr(mod, "USE_ORIGINAL_BODIES", False)
+        ctx = Ctx(prop, P if raw else Pv, tier, cfg)
+        ctx.P_view = Pv
+        notes.append("%s: %d helper function(s) inlined into their callers before the rules ran" % (cfg, len(Pv.inline_log)))
         try:
             mod.run(ctx)
         except FactsError as e:
